@@ -21,14 +21,15 @@ def RM(which, cur="self.log.m@", pre="old(self).log.m@", extra=()):
     op = ">=" if which == "from" else "<="
     return list(extra) + [("", "__k <= keys@.len()"), ("", "keys@ == keys0"),
       ("", "forall|k: u64| keys0.contains(k) <==> (%s.contains_key(k) && k %s log_id.index)" % (pre, op)),
-      ("", "forall|k: u64| %s.contains_key(k) <==> (%s.contains_key(k) && !(exists|j: int| 0 <= j < __k && keys@[j] == k))" % (cur, pre)),
-      ("", "forall|k: u64| %s.contains_key(k) ==> %s[k] == %s[k]" % (cur, cur, pre))]
+      ("", "minus_keys(%s, %s, keys0, __k as int)" % (cur, pre))]
+def BEFORE(pre="old(self).log.m@"):
+    return "let ghost keys0 = keys@; proof { lemma_minus_start(%s, keys0); }" % pre
+def STEP(cur="self.log.m@", pre="old(self).log.m@"):
+    return "proof { lemma_minus_step(%s, m_in, keys0, k_in as int); }" % pre
+def START(cur="self.log.m@"):
+    return "let ghost m_in = %s; let ghost k_in = __k;" % cur
 def DONE(op, cur="self.log.m@", pre="old(self).log.m@"):
-    return ('proof { assert(__k == keys0.len()); '
-            'assert forall|k: u64| %s.contains_key(k) <==> (%s.contains_key(k) && !keys0.contains(k)) by { '
-            'if keys0.contains(k) { let j = choose|j: int| 0 <= j < keys0.len() && keys0[j] == k; assert(0 <= j < __k && keys@[j] == k); } '
-            'if exists|j: int| 0 <= j < __k && keys@[j] == k { let j = choose|j: int| 0 <= j < __k && keys@[j] == k; assert(keys0[j] == k); assert(keys0.contains(k)); } } '
-            'assert forall|k: u64| %s.contains_key(k) <==> (%s.contains_key(k) && !(k %s log_id.index)) by { assert(keys0.contains(k) <==> (%s.contains_key(k) && k %s log_id.index)); } }' % (cur, pre, cur, pre, op, pre, op))
+    return "proof { lemma_minus_done_%s(%s, %s, keys0, log_id.index); }" % ("from" if op == ">=" else "upto", pre, cur)
 UNIT = dict(
     name="c21_replay",
     props=["C21"],
@@ -46,16 +47,28 @@ UNIT = dict(
         dict(kind="fn", file=ST, path="impl MemLogStoreInner / fn truncate", sig_rules=SIG, rules=R,
              ensures=[("C21:live_truncate_removes_exactly_the_entries_from_that_index_on", "ret is Ok && is_truncation(old(self).log.m@, final(self).log.m@, log_id.index)"),
                       ("", "final(self).vote == old(self).vote && final(self).committed == old(self).committed && final(self).last_purged_log_id == old(self).last_purged_log_id")],
-             hints=[dict(before_loop=0, text="        let ghost keys0 = keys@;"),
+             hints=[dict(before_loop=0, text="        " + BEFORE()), dict(loop_body_start=0, text="            " + START()), dict(loop_body_end=0, text="            " + STEP()),
                     dict(after_loop=0, text="        " + DONE(">="))],
              loops={0: dict(kind="while", invariant=RM("from"), decreases="keys@.len() - __k")}),
         dict(kind="fn", file=ST, path="impl MemLogStoreInner / fn purge", sig_rules=SIG, rules=R,
              ensures=[("C21:live_purge_removes_exactly_the_entries_up_to_that_index_and_records_it", "ret is Ok && is_purge(old(self).log.m@, final(self).log.m@, log_id.index) && final(self).last_purged_log_id == Some(log_id)"),
                       ("", "final(self).vote == old(self).vote && final(self).committed == old(self).committed")],
-             hints=[dict(before_loop=0, text="            let ghost keys0 = keys@;"),
+             hints=[dict(before_loop=0, text="            " + BEFORE()), dict(loop_body_start=0, text="                " + START()), dict(loop_body_end=0, text="                " + STEP()),
                     dict(after_loop=0, text="            " + DONE("<="))],
              loops={0: dict(kind="while", invariant=RM("upto"), decreases="keys@.len() - __k")}),
         dict(kind="model", file="c21_replay_model2.rs"),
+    ] + [
+        dict(kind="fn", file=ST, path="impl RaftLogStorage for WalLogStore / fn %s" % fn, impl="WalLogStore", sig_rules=SIG + [dict(pat=r"&mut self,", repl="&mut self, Ghost(s_init): Ghost<St>,", min=0)],
+             rules=R + [
+                 dict(rule="R2", kind="lit", old="let mut inner = self.inner.lock();", new="let inner = &mut self.inner;", min=0, why="tokio mutex guard -> &mut field (one task)"),
+                 dict(rule="R16", kind="re", pat=r"self\.persist_record\(", repl="persist_record(&mut self.wal, ", why="persist_record -> ghost record list"),
+                 dict(rule="R5", kind="lit", old="vote.clone()", new="*vote", min=0, why="Copy stand-in"),
+                 dict(rule="R12", kind="re", dotall=True, pat=r"persist_record\(&mut self\.wal, (&WalLogRecord::\w+\([^()]*(?:\([^()]*\))?[^()]*\))\)\s*\}\s*$", repl=r"let ghost rec_g = *\1; let __ret = persist_record(&mut self.wal, \1); proof { if __ret is Ok { lemma_replay_push(old(self).wal.persisted@, rec_g, s_init, st(old(self).inner), st(self.inner)); } } __ret }", why="tail expression bound to a name so that the in-sync lemma can follow it"),
+             ],
+             requires=[("", "in_sync(*old(self), s_init)")],
+             ensures=[("C21:an_acknowledged_%s_is_what_the_next_start_replays" % fn, "ret is Ok ==> in_sync(*final(self), s_init) && final(self).wal.persisted@.len() == old(self).wal.persisted@.len() + 1")])
+        for fn in ("truncate", "purge", "save_vote", "save_committed")
+    ] + [
         dict(kind="region", file=ST, within="impl WalLogStore / fn recover_from_wal", start="for raw in entries {", end="\n        Ok(())\n    }",
              sig="fn replay(inner: &mut MemLogStoreInner, entries: Vec<Bytes>) -> (ret: Result<(), OctopiiError>)",
              pre="let mut entries = entries; let ghost raws = entries@; let ghost s0 = st(*inner);\n", post="Ok(())",
@@ -66,12 +79,12 @@ UNIT = dict(
              ],
              ensures=[("C21:replaying_the_persisted_records_applies_to_each_the_effect_of_the_live_operation_that_wrote_it", "ret is Ok ==> replayed(decode_all(entries@, entries@.len() as int), st(*old(inner)), st(*final(inner)))")],
              hints=[dict(loop_body_end=0, text="            proof { lemma_replay_push(decode_all(raws, __n - 1), record, s0, s_in, st(*inner)); }"),
-                    dict(loop_body_start=1, text="                        let ghost m_in = inner.log.m@; let ghost k_in = __k; assert(forall|k: u64| m_in.contains_key(k) <==> (s_in.log.contains_key(k) && !(exists|j: int| 0 <= j < k_in && keys@[j] == k)));"),
-                    dict(loop_body_end=1, text="                        proof { assert(keys@[k_in as int] == key); assert(inner.log.m@ == m_in.remove(key)); assert forall|k: u64| inner.log.m@.contains_key(k) <==> (s_in.log.contains_key(k) && !(exists|j: int| 0 <= j < __k && keys@[j] == k)) by { if k == key { assert(keys@[k_in as int] == k); assert(exists|j: int| 0 <= j < __k && keys@[j] == k); } else { assert(inner.log.m@.contains_key(k) == m_in.contains_key(k)); if exists|j: int| 0 <= j < __k && keys@[j] == k { let j = choose|j: int| 0 <= j < __k && keys@[j] == k; assert(j != k_in); assert(exists|jj: int| 0 <= jj < k_in && keys@[jj] == k); } if exists|j: int| 0 <= j < k_in && keys@[j] == k { let j = choose|j: int| 0 <= j < k_in && keys@[j] == k; assert(0 <= j < __k && keys@[j] == k); } } } }"),
-                    dict(loop_body_start=2, text="                        let ghost m_in = inner.log.m@; let ghost k_in = __k; assert(forall|k: u64| m_in.contains_key(k) <==> (s_in.log.contains_key(k) && !(exists|j: int| 0 <= j < k_in && keys@[j] == k)));"),
-                    dict(loop_body_end=2, text="                        proof { assert(keys@[k_in as int] == key); assert(inner.log.m@ == m_in.remove(key)); assert forall|k: u64| inner.log.m@.contains_key(k) <==> (s_in.log.contains_key(k) && !(exists|j: int| 0 <= j < __k && keys@[j] == k)) by { if k == key { assert(keys@[k_in as int] == k); assert(exists|j: int| 0 <= j < __k && keys@[j] == k); } else { assert(inner.log.m@.contains_key(k) == m_in.contains_key(k)); if exists|j: int| 0 <= j < __k && keys@[j] == k { let j = choose|j: int| 0 <= j < __k && keys@[j] == k; assert(j != k_in); assert(exists|jj: int| 0 <= jj < k_in && keys@[jj] == k); } if exists|j: int| 0 <= j < k_in && keys@[j] == k { let j = choose|j: int| 0 <= j < k_in && keys@[j] == k; assert(0 <= j < __k && keys@[j] == k); } } } }"),
-                    dict(before_loop=1, text="                    let ghost keys0 = keys@;"), dict(after_loop=1, text="                    " + DONE("<=", "inner.log.m@", "s_in.log")),
-                    dict(before_loop=2, text="                    let ghost keys0 = keys@;"), dict(after_loop=2, text="                    " + DONE(">=", "inner.log.m@", "s_in.log"))],
+                    dict(loop_body_start=1, text="                        " + START("inner.log.m@")),
+                    dict(loop_body_end=1, text="                        " + STEP("inner.log.m@", "s_in.log")),
+                    dict(loop_body_start=2, text="                        " + START("inner.log.m@")),
+                    dict(loop_body_end=2, text="                        " + STEP("inner.log.m@", "s_in.log")),
+                    dict(before_loop=1, text="                    " + BEFORE("s_in.log")), dict(after_loop=1, text="                    " + DONE("<=", "inner.log.m@", "s_in.log")),
+                    dict(before_loop=2, text="                    " + BEFORE("s_in.log")), dict(after_loop=2, text="                    " + DONE(">=", "inner.log.m@", "s_in.log"))],
              loops={0: dict(kind="while", n_loops=3, expect="decode_record", invariant=[
                         ("", "__n <= entries@.len() && entries@.len() == raws.len() && s0 == st(*old(inner))"),
                         ("", "forall|j: int| __n <= j < raws.len() ==> (#[trigger] entries@[j]).v@ == raws[j].v@"),
